@@ -146,13 +146,15 @@ def run(tier, seed):
                               f"final {json.dumps(b['event']['final'])}")
     # 3. free running programs under the race detector, GOMAXPROCS 1..16
     race = common.build_harness(race=True)
-    kinds = [("chan", 0), ("chan", 1), ("chan", 8), ("select", 0), ("select", 4), ("mutex", 0), ("syncinst", 0), ("tables", 0)]
+    kinds = [("chan", 0), ("chan", 1), ("chan", 8), ("select", 0), ("select", 4), ("mutex", 0), ("mutexnest", 0), ("syncinst", 0), ("tables", 0)]
     sizes = [(2, 20), (4, 50)] if quick else [(2, 20), (4, 50), (8, 200), (3, 101)]
     stress = []
     for k, cap in kinds:
         for n, m in sizes:
             if k == "tables":
                 m = min(m, 40)
+            if k == "mutexnest":
+                m = min(m, 15)      # every critical section sleeps 1 ms
             stress.append({"id": len(stress) + 1, "kind": k, "n": n, "m": m, "cap": cap})
     for _ in range(3):
         stress.append({"id": len(stress) + 1, "kind": "gencache", "n": 2, "m": 1, "cap": 0})
